@@ -160,6 +160,7 @@ def r2_r6(prog, ev, rep, pe):
     colls = [c for c in trace if c.k == "call" and PL.method_name(c.a[0]) == "collect" and PL.is_iter_call(c.a[0])]
     branches = 0
     item_fn = None
+    wrapped_at_call = True
     for c in colls:
         src, stages = PL.unwind(c)
         names = [s[0] for s in stages]
@@ -193,6 +194,11 @@ def r2_r6(prog, ev, rep, pe):
             pt = fb.a[2]
             if pt.k == "call" and pt.a[0] == PTR + "empty":
                 tested = pt.a[1]
+                wrapped_at_call = True
+            elif "Pointer<" not in (prog.params(item_fn)[1].get("ty") or "") if len(prog.params(item_fn)) > 1 else False:
+                # the per-child function takes the child itself (&T) and builds the pathless pointer inside
+                tested = pt
+                wrapped_at_call = False
             selfok = fb.a[1].k == "param" and fb.a[1].a[0] == 0
             rootok = fb.a[3].k == "field" and fb.a[3].a[1] == "root"
             rep.check(selfok and rootok, "C05-R2", key + "/predicate", where, "filter_item(self, Pointer::empty(child), state.root)",
@@ -215,7 +221,8 @@ def r2_r6(prog, ev, rep, pe):
         rep.check(tested is not None and tested == emitted, "C05-R6", key, where, "tested child == emitted child",
                   "the child tested (`%s`) is not the child emitted (`%s`)" % (tested, emitted))
     if branches < 2:
-        rep.bad("C05-R6", "filter-selector/branches", where, "found %d filter pipelines, expected one for arrays and one for objects" % branches)
+        rep.unrecognised("C05-R6", "filter-selector/branches", where, "found %d filter pipelines (children -> filter -> map -> collect), expected one for "
+                         "arrays and one for objects: the selector is written in a form the rule cannot read" % branches)
     # filter_item: truth(process_elem(self, State::data(root, Data::Ref(item))))
     if item_fn:
         ft = ev.summary(item_fn)
@@ -226,6 +233,11 @@ def r2_r6(prog, ev, rep, pe):
             good = (s.a[1].k == "param" and s.a[1].a[0] == 0 and stt.k == "call" and stt.a[0] == STATE + "data"
                     and stt.a[1].k == "param" and stt.a[1].a[0] == 2 and stt.a[2].k == "adt" and stt.a[2].a[1] == "Ref"
                     and stt.a[2].a[2][0][1].k == "param" and stt.a[2].a[2][0][1].a[0] == 1)
+            if not good and not wrapped_at_call:
+                pl = stt.a[2].a[2][0][1] if stt.k == "call" and len(stt.a) == 3 and stt.a[2].k == "adt" and stt.a[2].a[1] == "Ref" else None
+                good = (s.a[1].k == "param" and s.a[1].a[0] == 0 and stt.k == "call" and stt.a[0] == STATE + "data"
+                        and stt.a[1].k == "param" and stt.a[1].a[0] == 2 and pl is not None and pl.k == "call" and pl.a[0] == PTR + "empty"
+                        and pl.a[1].k == "param" and pl.a[1].a[0] == 1)
         rep.check(good, "C05-R2", "filter_item", prog.loc_of(item_fn), "truth(self.process_elem(State::data(root, Ref(item))))",
                   "keep/drop decision is `%s`: not the un-negated truth of the expression on the child" % ft)
     else:
@@ -650,7 +662,12 @@ def r8(prog, ev, rep):
                     ok = _not_set_under_not_op(prog, fa, rule)
                     if not ok:
                         why = "`not = true` is not guarded by Rule::not_op"
-        rep.check(ok, "C05-R8", key, where, "FilterAtom::%s(expr, not_op present)" % ctor, why)
+        if not ok and why.startswith("arm is"):
+            # no closure/constructor call of the expected form was found at all: the arm could not be read (a wrong `not`
+            # that *was* read is reported as a violation above)
+            rep.unrecognised("C05-R8", key, where, "how the arm builds FilterAtom::%s(expr, not) could not be read: %s" % (ctor, why[:300]))
+        else:
+            rep.check(ok, "C05-R8", key, where, "FilterAtom::%s(expr, not_op present)" % ctor, why)
     sel = tables.select(arms, ("v", "comp_expr", []))
     if len(sel) == 1:
         b = arms[sel[0][0]][2]
